@@ -11,18 +11,18 @@ Open Scope list_scope.
 (* ---------------------------------------------------------------- items and what they look like between the stages *)
 Definition item_tags (it : item16) : option (string * string) :=
   match it with Text _ => None | Raw _ => None | Block k _ _ _ => Some (stage_tags k) | SigBlock _ _ _ => Some sig_tags
-              | TransBlock _ _ _ => Some pst_tags end.
+              | TransBlock _ _ _ => Some pst_tags | InitLine _ => None end.
 Definition item_lines (it : item16) : list string :=
   match it with Text _ => [] | Raw _ => [] | Block _ _ _ b => map render_line b | SigBlock _ _ b => map render_line b
-              | TransBlock _ _ b => flat_map render_titem b end.
+              | TransBlock _ _ b => flat_map render_titem b | InitLine _ => [] end.
 Definition item_bl (it : item16) : string :=
   match it with Text _ => EmptyString | Raw _ => EmptyString | Block k ib _ _ => (ib ++ begin_line (block_word k))%string
               | SigBlock ib _ _ => (ib ++ begin_line "PER_ACTION_SIGNATURE")%string
-              | TransBlock ib _ _ => (ib ++ begin_line "PER_STATETRANSITION")%string end.
+              | TransBlock ib _ _ => (ib ++ begin_line "PER_STATETRANSITION")%string | InitLine _ => EmptyString end.
 Definition item_el (it : item16) : string :=
   match it with Text _ => EmptyString | Raw _ => EmptyString | Block k _ ie _ => (ie ++ end_line (block_word k))%string
               | SigBlock _ ie _ => (ie ++ end_line "PER_ACTION_SIGNATURE")%string
-              | TransBlock _ ie _ => (ie ++ end_line "PER_STATETRANSITION")%string end.
+              | TransBlock _ ie _ => (ie ++ end_line "PER_STATETRANSITION")%string | InitLine _ => EmptyString end.
 Definition item_inner (m : smodel) (it : item16) : list string -> option string -> option (list string) :=
   match it with
   | Text _ => fun _ _ => None
@@ -30,6 +30,7 @@ Definition item_inner (m : smodel) (it : item16) : list string -> option string 
   | Block k _ _ _ => inner_of_kind k (items_of (elements_of_model m) k)
   | SigBlock _ _ _ => inner_actionsigs (sm_actionsigs m)
   | TransBlock _ _ _ => inner_tps (sm_tps m)
+  | InitLine _ => fun _ _ => None
   end.
 
 Definition inb (y : string) (l : list string) : bool := existsb (String.eqb y) l.
@@ -38,7 +39,7 @@ Definition inb (y : string) (l : list string) : bool := existsb (String.eqb y) l
 Definition view (e : elements) (done : list string) (it : item16) : list string :=
   match item_tags it with
   | Some (b, _) => if inb b done then ref_item16 e it else render_item16 it
-  | None => render_item16 it
+  | None => match it with InitLine _ => ref_item16 e it | _ => render_item16 it end
   end.
 
 Lemma render_block_shape it b e : item_tags it = Some (b, e) ->
@@ -50,12 +51,13 @@ Lemma item_expands m it :
   item16_ok it = true -> item16_wf (elements_of_model m) it = true -> item_tags it <> None ->
   item_inner m it (item_lines it) None = Some (ref_item16 (elements_of_model m) it).
 Proof.
-  destruct it as [l|rs|k ib ie body|ib ie body|ib ie body]; cbn [item16_ok item16_wf item_tags item_inner item_lines ref_item16]; intros Ho Hw Hn.
+  destruct it as [l|rs|k ib ie body|ib ie body|ib ie body|il]; cbn [item16_ok item16_wf item_tags item_inner item_lines ref_item16]; intros Ho Hw Hn.
   - contradiction.
   - contradiction.
   - apply andb_prop in Ho as [_ Ho]. apply inner_block; assumption.
   - apply andb_prop in Ho as [_ Ho]. cbn [elements_of_model el_sigs]. apply sig_block_is_ref; assumption.
   - apply andb_prop in Ho as [_ Ho]. cbn [elements_of_model el_tps] in *. apply inner_tps_is_ref; assumption.
+  - contradiction.
 Qed.
 
 Lemma keys_same k name i : map fst (table_of_kind k name i) = keys_of k.
@@ -83,7 +85,7 @@ Qed.
 Lemma expanded_tagfree e it : item16_ok it = true -> item16_wf e it = true -> item_tags it <> None ->
   forallb tagfree (ref_item16 e it) = true.
 Proof.
-  destruct it as [l|rs|k ib ie body|ib ie body|ib ie body]; cbn [item16_ok item16_wf item_tags ref_item16]; intros Ho Hw Hn; [contradiction|contradiction| | |].
+  destruct it as [l|rs|k ib ie body|ib ie body|ib ie body|il]; cbn [item16_ok item16_wf item_tags ref_item16]; intros Ho Hw Hn; [contradiction|contradiction| | | |contradiction].
   - apply andb_prop in Ho as [_ Ho]. unfold ref_block, block_wf in *. apply (ref_block_tagfree (table_of_kind k) (keys_of k) (keys_same k) body Ho _ 0 Hw).
   - apply andb_prop in Ho as [_ Ho]. unfold ref_block, block_wf in *. apply (ref_block_tagfree sig_table sig_keys sig_keys_same body Ho _ 0 Hw).
   - apply andb_prop in Ho as [_ Ho]. apply ref_trans_tagfree; assumption.
@@ -92,24 +94,34 @@ Qed.
 Lemma text_tagfree l : text_ok l = true -> tagfree (l ++ nl_str)%string = true /\ (count_char LF (l ++ nl_str)%string <=? 1)%nat = true.
 Proof.
   unfold text_ok. intros H. apply andb_prop in H as [H1 H2]. split.
-  - unfold tagfree. rewrite no_char_app. change (chr 60) with LT in H1. rewrite H1. reflexivity.
+  - unfold tagfree. apply no3_app; [exact H1|reflexivity].
   - clear H1. induction l as [|c l IH]; [reflexivity|]. cbn [no_char] in H2. apply andb_prop in H2 as [Hc H2].
     apply negb_true_iff in Hc. cbn [append count_char]. rewrite Hc. cbn [Nat.add]. apply IH. exact H2.
 Qed.
 
-Lemma plain_item_line it : item_tags it = None -> item16_ok it = true ->
+Definition is_init (it : item16) : bool := match it with InitLine _ => true | _ => false end.
+
+Lemma plain_item_line it : item_tags it = None -> is_init it = false -> item16_ok it = true ->
   exists s, render_item16 it = [s] /\ (forall e, ref_item16 e it = [s]) /\ tagfree s = true /\ (count_char LF s <=? 1)%nat = true.
 Proof.
-  destruct it as [l|rs|k ib ie body|ib ie body|ib ie body]; cbn [item_tags item16_ok]; intros T H; try discriminate.
+  destruct it as [l|rs|k ib ie body|ib ie body|ib ie body|il]; cbn [item_tags item16_ok is_init]; intros T I H; try discriminate.
   - destruct (text_tagfree l H) as [A B]. exists (l ++ nl_str)%string. repeat split; auto.
   - apply andb_prop in H as [A B]. exists rs. repeat split; auto.
+Qed.
+
+(* a line that mentions the initial state, after filterInitialState *)
+Lemma init_item_tagfree e il : item16_ok (InitLine il) = true -> item16_wf e (InitLine il) = true ->
+  tagfree (render_line (map (subst16 (init_table (el_first e))) il)) = true.
+Proof.
+  cbn [item16_ok item16_wf]. intros Ho Hw. apply andb_prop in Ho as [Ho _]. apply andb_prop in Ho as [H1 H2].
+  apply copy_tagfree; [exact H1|exact H2|exact Hw].
 Qed.
 
 (* ---------------------------------------------------------------- the begin / end lines of a block *)
 Lemma item_lines_ok it tags : item16_ok it = true -> item_tags it = Some tags ->
   block_lines_ok tags (item_bl it) (item_el it) = true.
 Proof.
-  destruct it as [l|rs|k ib ie body|ib ie body|ib ie body]; cbn [item16_ok item_tags item_bl item_el]; intros H T; inversion T; subst;
+  destruct it as [l|rs|k ib ie body|ib ie body|ib ie body|il]; cbn [item16_ok item_tags item_bl item_el]; intros H T; inversion T; subst;
     apply andb_prop in H as [H _]; exact H.
 Qed.
 
@@ -128,7 +140,7 @@ Proof.
   assert (B : forall keys body, forallb (body_line_ok keys) body = true -> forallb inert (map render_line body) = true).
   { intros keys. induction body as [|l body IH]; [reflexivity|]. cbn [forallb map]. intros H. apply andb_prop in H as [H1 H2].
     rewrite (IH H2), andb_true_r. unfold body_line_ok in H1. repeat (apply andb_prop in H1 as [H1 ?K]). unfold inert. rewrite K0, K. reflexivity. }
-  destruct it as [l|rs|k ib ie body|ib ie body|ib ie body]; cbn [item16_ok item_lines]; intros H; try reflexivity;
+  destruct it as [l|rs|k ib ie body|ib ie body|ib ie body|il]; cbn [item16_ok item_lines]; intros H; try reflexivity;
     apply andb_prop in H as [_ H]; [exact (B _ _ H)|exact (B _ _ H)|exact (trans_lines_inert _ H)].
 Qed.
 
@@ -151,7 +163,11 @@ Proof.
     + destruct Hown as [Hown|Hown]; [|discriminate].
       rewrite (render_block_shape it b e' T). destruct (const_facts _ _ _ st (item_lines_ok it _ Ho T) Hst Hown) as [Cb Ce]. cbn [forallb]. rewrite Cb. cbn [andb]. rewrite forallb_app'.
       rewrite (lines_stage_inert st _ Hst (item_lines_inert it Ho)). cbn [forallb andb]. rewrite Ce. reflexivity.
-  - destruct (plain_item_line it T Ho) as (s0 & R & _ & Tf & _). rewrite R. cbn [forallb]. rewrite (tagfree_stage_inert _ st Tf). reflexivity.
+  - destruct (is_init it) eqn:I.
+    + destruct it; try discriminate. cbn [ref_item16 forallb]. rewrite (tagfree_stage_inert _ st (init_item_tagfree e _ Ho Hw)). reflexivity.
+    + destruct (plain_item_line it T I Ho) as (s0 & R & _ & Tf & _).
+      assert (V : match it with InitLine _ => ref_item16 e it | _ => render_item16 it end = render_item16 it) by (destruct it; try discriminate; reflexivity).
+      rewrite V, R. cbn [forallb]. rewrite (tagfree_stage_inert _ st Tf). reflexivity.
 Qed.
 
 (* ---------------------------------------------------------------- a stage that is nobody's pending own stage: identity *)
@@ -242,7 +258,7 @@ Proof.
   repeat (destruct H as [H|H]; [subst st;
     first [ left; split; reflexivity
           | right; do 5 eexists; split; [reflexivity|]; split; [reflexivity|];
-            intros it tags T E; destruct it as [l|rs|k ib ie body|ib ie body|ib ie body]; cbn [item_tags] in T; [discriminate|discriminate| | |];
+            intros it tags T E; destruct it as [l|rs|k ib ie body|ib ie body|ib ie body|il]; cbn [item_tags] in T; [discriminate|discriminate| | | |discriminate];
             inversion T; subst tags; clear T; [destruct k| |]; cbn [fst snd stage_tags sig_tags pst_tags] in *;
             first [ split; [reflexivity|intros x; reflexivity] | vm_compute in E; discriminate E ] ] |]).
   contradiction.
@@ -287,7 +303,7 @@ Section Compose.
 
   Lemma all_done it tags : item_tags it = Some tags -> inb (fst tags) done_final = true.
   Proof.
-    destruct it as [l|rs|k ib ie body|ib ie body|ib ie body]; cbn [item_tags]; intros T; inversion T; subst; [destruct k| |]; vm_compute; reflexivity.
+    destruct it as [l|rs|k ib ie body|ib ie body|ib ie body|il]; cbn [item_tags]; intros T; inversion T; subst; [destruct k| |]; vm_compute; reflexivity.
   Qed.
 
   Lemma view_final : flat_map (view e done_final) t = flat_map (ref_item16 e) t.
@@ -298,17 +314,58 @@ Section Compose.
     - destruct it; cbn [item_tags] in T; try discriminate; reflexivity.
   Qed.
 
-  Lemma view_initial : flat_map (view e []) t = render16 t.
+  (* filterInitialState is the first stage: it rewrites exactly the lines that mention the initial state *)
+  Definition init_stage : stage := ("Init", "", "", "filterInitialState", "").
+  Definition rest_stages : list stage := tl all_stages.
+
+  Lemma stages_split : all_stages = init_stage :: rest_stages.
+  Proof. reflexivity. Qed.
+
+  Lemma init_in : In init_stage all_stages.
+  Proof. rewrite stages_split. left. reflexivity. Qed.
+
+  Lemma init_fold_chain s :
+    fold_left (fun acc tv => replace_all (fst tv) (if String.eqb (snd tv) "camel" then camel_case_small (sm_first m) else sm_first m) acc) init_state_tags s
+    = chain (init_table (sm_first m)) s.
+  Proof. reflexivity. Qed.
+
+  Lemma view_initial : flat_map (view e []) t = filterInitialState m (render16 t).
   Proof.
-    clear Hok Hwf. unfold render16. induction t as [|it t' IH]; [reflexivity|]. cbn [flat_map]. rewrite IH. f_equal.
-    unfold view. destruct (item_tags it) as [[b et]|]; reflexivity.
+    unfold render16. revert Hok Hwf. induction t as [|it t' IH]; intros Ho Hw; [reflexivity|].
+    cbn [forallb] in Ho, Hw. apply andb_prop in Ho as [Hi Ho]. apply andb_prop in Hw as [Wi Hw].
+    cbn [flat_map]. unfold filterInitialState in *. rewrite map_app, <- (IH Ho Hw). f_equal.
+    destruct (is_init it) eqn:I.
+    - destruct it as [l|rs|k ib ie body|ib ie body|ib ie body|il]; try discriminate.
+      unfold view. cbn [item_tags ref_item16 render_item16 map elements_of_model el_first]. f_equal.
+      rewrite init_fold_chain. symmetry. cbn [item16_ok item16_wf elements_of_model el_first] in Hi, Wi.
+      apply andb_prop in Hi as [Hi _]. apply andb_prop in Hi as [H1 _].
+      apply chain_render; [|exact H1].
+      unfold init_table in *. cbn [forallb snd] in Wi. apply andb_prop in Wi as [W1 W2]. apply andb_prop in W2 as [W2 _].
+      cbn [forallb]. unfold kv_ok. cbn [fst snd]. rewrite W1, W2. reflexivity.
+    - assert (V : view e [] it = render_item16 it).
+      { unfold view. destruct (item_tags it) as [[b et]|]; [reflexivity|]. destruct it; try discriminate; reflexivity. }
+      pose proof (view_lines_inert e [] it init_stage init_in Hi Wi) as F.
+      rewrite V in *. fold (filterInitialState m (render_item16 it)). symmetry. apply filterInitialState_id.
+      intros l Hl.
+      assert (C : match item_tags it with Some tags => own_stage init_stage tags = false \/ inb (fst tags) [] = true | None => True end)
+        by (destruct (item_tags it); [left; reflexivity|constructor]).
+      specialize (F C). rewrite forallb_forall in F. exact (F l Hl).
   Qed.
 
-  (* expand_secondfiltering on the rendered template: every block is replaced by its reference block *)
+  Lemma fresh_rest : fresh_b rest_stages [] = true.
+  Proof. vm_compute. reflexivity. Qed.
+
+  Lemma done_rest : fold_left done_after rest_stages [] = done_final.
+  Proof. reflexivity. Qed.
+
+  (* expand_secondfiltering on the rendered template: the lines that mention the initial state are rewritten, every block is
+     replaced by its reference block *)
   Theorem second_filter16 : second_filter m (render16 t) = Some (flat_map (ref_item16 e) t).
   Proof.
-    unfold second_filter. fold all_stages. rewrite <- view_initial.
-    rewrite (fold_stages all_stages [] (fun st H => H) fresh_all). fold done_final. rewrite view_final. reflexivity.
+    unfold second_filter. fold all_stages. rewrite stages_split. cbn [fold_left].
+    change (apply_stage m (Some (render16 t)) init_stage) with (Some (filterInitialState m (render16 t))).
+    rewrite <- view_initial.
+    rewrite (fold_stages rest_stages [] (fun st H => or_intror H) fresh_rest). rewrite done_rest, view_final. reflexivity.
   Qed.
 End Compose.
 
@@ -346,7 +403,9 @@ Section Whole.
     - rewrite (render_block_shape it b et T). destruct (const_load _ _ _ (item_lines_ok it _ Hi T)) as [Lb Le].
       cbn [forallb]. rewrite Lb. cbn [andb]. rewrite forallb_app'. cbn [forallb]. rewrite Le, !andb_true_r.
       generalize (item_lines_inert it Hi). apply forallb_impl. intros s0 K. unfold inert in K. apply andb_prop in K. tauto.
-    - destruct (plain_item_line it T Hi) as (s0 & R & _ & Tf & Tc). rewrite R. cbn [forallb]. rewrite (tagfree_load_inert _ Tf Tc). reflexivity.
+    - destruct (is_init it) eqn:I.
+      + destruct it; try discriminate. cbn [render_item16 forallb item16_ok] in *. apply andb_prop in Hi as [_ Hi]. rewrite Hi. reflexivity.
+      + destruct (plain_item_line it T I Hi) as (s0 & R & _ & Tf & Tc). rewrite R. cbn [forallb]. rewrite (tagfree_load_inert _ Tf Tc). reflexivity.
   Qed.
 
   Lemma ref_lines_tagfree : forallb tagfree (flat_map (ref_item16 e) t) = true.
@@ -356,7 +415,9 @@ Section Whole.
     cbn [flat_map]. rewrite forallb_app', (IH Ho Hw'), andb_true_r.
     destruct (item_tags it) as [tags|] eqn:T.
     - apply expanded_tagfree; [assumption|assumption|rewrite T; discriminate].
-    - destruct (plain_item_line it T Hi) as (s0 & _ & R & Tf & _). rewrite R. cbn [forallb]. rewrite Tf. reflexivity.
+    - destruct (is_init it) eqn:I.
+      + destruct it; try discriminate. cbn [ref_item16 forallb]. rewrite (init_item_tagfree e _ Hi Wi). reflexivity.
+      + destruct (plain_item_line it T I Hi) as (s0 & _ & R & Tf & _). rewrite R. cbn [forallb]. rewrite Tf. reflexivity.
   Qed.
 
   (* the generated file of a template of the grammar is the reference expansion *)
